@@ -31,7 +31,7 @@ META = {
     'rule': ('case = (schema, population, link rows, victim, cached?); distinct = distinct canonical case text; '
              'non-trivial = the victim is referenced by at least one row or link row'),
     'trusted': ['Model/Graph.lean mirrors main.py destroySelf / findDependencies / findDependantColumns by hand (tied by the correspondence run)',
-                'the policy literals and the order of the steps of destroySelf are read from the AST (vlib/extractors/graph.py)'],
+                'no part of destroySelf is table-like data, so nothing is extracted: the tie is the differential run (5 streams, every case)'],
     'modelled': ['SQLite engine (DELETE / UPDATE / lazy cursor of the dependent select; executed, not verified)',
                  'Python recursion limit modelled as fuel; weakref/GC of cached instances not modelled (instances are held by the harness)'],
     'assumptions': ['classes live in one registry and are plain SQLObject classes (no InheritableSQLObject, no per-connection instances)',
@@ -356,7 +356,7 @@ def gen_cases(ctx):
             c = dict(case)
             c['cache'] = cached
             yield c
-    nschema = ctx.budget(170, 4500)
+    nschema = ctx.budget(700, 12000)
     for s in range(nschema):
         classes = gen_schema(rng)
         cached = (s % 3 != 0)
